@@ -401,6 +401,25 @@ def gen_slc_tables():
         out.append(f"Definition {name}_ast : re :=\n  {coq_re(mine)}.\n")
         out.append(f"Definition {name} : regex := {{| rx_re := {name}_ast; rx_ic := {coq_bool(ic)}; "
                    f"rx_groups := {p.ngroups}%nat; rx_names := [{names}] |}}.\n\n")
+    # how parse_tag applies the patterns: every X_RE.<method>(tag) call of its body, one method for all seven
+    ptree = _parse("pycomm3/slc_driver.py")
+    fn = [n for n in ptree.body if isinstance(n, ast.FunctionDef) and n.name == "parse_tag"]
+    if len(fn) != 1:
+        raise GenError("slc_driver.parse_tag: not found")
+    used, methods = [], set()
+    for node in ast.walk(fn[0]):
+        if isinstance(node, ast.Call) and isinstance(node.func, ast.Attribute) and isinstance(node.func.value, ast.Name) \
+                and node.func.value.id.endswith("_RE"):
+            if len(node.args) != 1 or not (isinstance(node.args[0], ast.Name) and node.args[0].id == "tag") or node.keywords:
+                raise GenError(f"slc_driver.parse_tag: {node.func.value.id}.{node.func.attr}(...) is not applied to `tag` alone")
+            used.append(node.func.value.id)
+            methods.add(node.func.attr)
+    if sorted(used) != sorted(PATTERNS):
+        raise GenError(f"slc_driver.parse_tag: patterns applied: {used}")
+    if methods not in ({"search"}, {"fullmatch"}):
+        raise GenError(f"slc_driver.parse_tag: pattern methods {sorted(methods)} not modelled")
+    out.append("(* parse_tag applies every pattern with the same method: fullmatch (true) or search (false) *)\n")
+    out.append(f"Definition PARSE_TAG_FULLMATCH : bool := {coq_bool(methods == {'fullmatch'})}.\n\n")
     out.append("Definition slc_patterns : list (list Z * regex) := [\n" +
                ";\n".join(f"  ({zs(n)}, {n})" for n in PATTERNS) + "].\n\n")
 
